@@ -132,6 +132,26 @@ CHECKS['C06'] = dict(
          'no available alternative for the generating-function clause.',
     design='DESIGN.md 1/C06')
 
+CHECKS['C17'] = dict(
+    text='For piecewise-linear helpers with 2-5 thresholds (open ends, non-zero first threshold), Box-Cox in both branches, '
+         'the five density helpers, the regression log likelihood, segmentation (2 variables, 2 reference choices) and the '
+         'nested-logit correlation for 6 nest structures, and ALL arguments/parameters/cells, z3 shows each helper '
+         'equals its closed form (continuity, slopes = parameters, exp-log identities via the ELN normal form).',
+    note='Trusted: engine contract, ELN rewriting rules, exact doubles the library writes. Outside: more than 5 '
+         'thresholds, Box-Cox accuracy of the truncated series itself.',
+    design='DESIGN.md 1/C17')
+CHECKS['C11'] = dict(
+    text='DECIDABLE PART. The real get_normal_wichura_draws on a symbolic u in (0,1): on every path z3 shows the region '
+         'test and the rational function are those of the published AS241/PPND16; uniform / Latin hypercube / antithetic '
+         '/ symmetric generators on symbolic uniform numbers with solver-chosen shuffles: support, exactly one point per '
+         'stratum, mirror-image halves per observation; all 21 catalogue names: each entry is the advertised transform '
+         'of the generator with the advertised base/skip; Database.generate_draws: for all dictionary/name orders the '
+         'slice of a variable comes from the generator of its declared type.',
+    note='NOT claimed: equality of get_halton_draws with the radical inverse for every size (only compared concretely for '
+         'bases 2,3,5,7, <= 12 points and call histories: those obligations are concrete, not solver-decided); '
+         'accuracy of AS241 itself (published); RNG quality. Floats as reals.',
+    design='DESIGN.md 1/C11')
+
 NOT_APPLICABLE = {}
 
 
